@@ -26,9 +26,43 @@ func VX_C08_new() {
 	data := map[string]interface{}{}
 	enums := map[string][]string{}
 	sameLen := true
+	sdata := "ptr"
+	if vx.HasParam("sdata") {
+		sdata = vx.ParamStr("sdata")
+	}
 	for k, t := range types {
 		cols[k] = vxColLen(t, L)
 		data[names[k]] = cols[k].data()
+		if t == "string" || t == "enum" {
+			switch sdata {
+			case "shared":
+				// []*string whose cells may share one pointer (the solver picks the aliasing pattern;
+				// aliased cells hold the same string by construction)
+				c := &cols[k]
+				ptrs := make([]*string, c.len())
+				for r := range ptrs {
+					if c.null[r] {
+						continue
+					}
+					a := vxConc(vx.IntN(0, r), r+1)
+					if a < r && ptrs[a] != nil {
+						ptrs[r] = ptrs[a]
+						c.s[r] = c.s[a]
+					} else {
+						v := c.s[r]
+						ptrs[r] = &v
+					}
+				}
+				data[names[k]] = ptrs
+			case "plain":
+				// []string: no nulls
+				c := &cols[k]
+				for r := range c.null {
+					vx.Assume(!c.null[r])
+				}
+				data[names[k]] = append([]string{}, c.s...)
+			}
+		}
 		if t == "enum" {
 			enums[names[k]] = vxEnumVals
 		}
@@ -58,6 +92,19 @@ func VX_C08_new() {
 	case "enum_unknown":
 		enums["nosuch"] = []string{"x"}
 		valid = false
+	case "enum_nonstring":
+		// an Enums entry for a column that does not hold strings
+		valid = false
+		found := false
+		for k, t := range types {
+			if t != "string" && t != "enum" && !found {
+				enums[names[k]] = []string{"x"}
+				found = true
+			}
+		}
+		if !found {
+			vx.Assume(false)
+		}
 	case "badtype":
 		data[names[0]] = []int32{1}
 		valid = false
